@@ -200,6 +200,18 @@ def check(datas, commons, acc, case, fast=False, layout=None):
                 big = numpy.zeros(2 * len(a) + 1, dtype=numpy.uint32)
                 big[::2][:len(a)] = a
                 dict.__setitem__(d, k, big[::2][:len(a)])
+    elif layout == "read-only-entries":
+        # row ids the caller has frozen (arr.flags.writeable = False): a walk only ever reads them
+        for d in dims:
+            for k in list(dict.keys(d)):
+                a = dict.__getitem__(d, k).copy()
+                a.flags.writeable = False
+                dict.__setitem__(d, k, a)
+    elif layout == "loaded-from-indx":
+        # dimensions rebuilt from what IndxIO.load returns (views of a read-only mapping of the file)
+        from .c03 import _through_indx
+
+        dims = [_through_indx(d) for d in dims]
     exp = expected_fast(datas, commons) if fast else expected(datas, commons)
     try:
         cube = ccube(dims)
@@ -277,8 +289,8 @@ def run_block(family, p, acc):
         for commons in ([0] * len(pats), [2] + [0] * (len(pats) - 1), [0] * (len(pats) - 1) + [1]):
             case = {"data": [list(t) for t in datas], "commons": commons, "populous": [N, list(pats)]}
             exp = check(datas, commons, acc, case)
-            if p["i"] % 3 == 0:
-                check(datas, commons, acc, dict(case, layout="strided-entries"), layout="strided-entries")
+            lay = ("strided-entries", "read-only-entries", "loaded-from-indx")[p["i"] % 3]
+            check(datas, commons, acc, dict(case, layout=lay), layout=lay)
             acc.case((tuple(datas), tuple(commons)), nontrivial=True, outcome=("populous", len(pats), len(exp)), sample={"rows": N, "patterns": list(pats), "commons": commons})
         return
     if family == "long":
@@ -295,11 +307,16 @@ def run_block(family, p, acc):
         return
     D, N, E = p["D"], p["N"], p["E"]
     opts = dim_opts(N, E)
+    nth = 0
     for combo in itertools.product(opts[p["a0"]:p["a1"]], *([opts] * (D - 1))):
         datas = [t for t, c in combo]
         commons = [c for t, c in combo]
         case = {"data": [list(t) for t in datas], "commons": commons}
         exp = check(datas, commons, acc, case)
+        nth += 1
+        if D >= 2 and nth % 16 == 0:
+            lay = ("read-only-entries", "loaded-from-indx", "strided-entries")[(nth // 16) % 3]
+            check(datas, commons, acc, dict(case, layout=lay), layout=lay)
         mixed = any(any(x == -1 for x in c) and any(x != -1 for x in c) for c, _ in exp)
         acc.case((tuple(datas), tuple(commons)), nontrivial=D >= 2 and mixed, outcome=(D, len(exp)), sample=case)
 
